@@ -2,7 +2,7 @@
    [enter] is the SDK's test |c| > eps for taking a term, [leave] its test |v| < eps for deleting an
    accumulated entry; exactness is stated for every pair of tests that only discard exact zeros. *)
 Require Import Ommx.Num Ommx.Poly Ommx.Msg Ommx.Eval Ommx.Tree Ommx.Arith Ommx.Inst
-        Ommx.Transform Ommx.PuboProofs.
+        Ommx.Transform Ommx.PuboProofs Ommx.ResidualOps.
 From Coq Require Import String.
 Close Scope string_scope. Open Scope list_scope. Open Scope Qc_scope.
 
@@ -59,6 +59,20 @@ Proof. split; [exact enter_0_exact|exact leave_0_exact]. Qed.
 Print Assumptions C11_idealised_tests_exact.
 
 (* non-vacuity: 2 x1 x2 x2 + 3 x1 x1 - x1 over binaries exports {1,2}: 2, {1}: 2 *)
+(* with the SDK's own tests (take a term iff |c| > eps, delete an accumulated entry iff |v| < eps):
+   on every binary assignment the exported dictionary differs from the objective by at most
+   (number of terms of the objective) * eps *)
+Theorem C11_pubo_eps : forall (I : instance) (D : terms), as_pubo enter_eps leave_eps I = inr D ->
+  forall rho, binary rho ->
+    qabs (val rho D - denote (fn_or_zero (i_obj I)) rho) <= qn (nterms (fn_or_zero (i_obj I))) * eps.
+Proof. exact pubo_eps_bound. Qed.
+Print Assumptions C11_pubo_eps.
+Theorem C11_qubo_eps : forall I D c0, as_qubo enter_eps leave_eps I = inr (D, c0) ->
+  forall rho, binary rho ->
+    qabs (val rho D + c0 - denote (fn_or_zero (i_obj I)) rho) <= qn (nterms (fn_or_zero (i_obj I))) * eps.
+Proof. exact qubo_eps_bound. Qed.
+Print Assumptions C11_qubo_eps.
+
 Example C11_nonvacuous :
   let b k := {| dv_id := k; dv_kind := 1; dv_bound := None; dv_subst := None; dv_meta := [] |} in
   let I := {| i_sense := 1; i_obj := Some (FPoly [([1; 2; 2]%N, qz 2); ([1; 1]%N, qz 3); ([1]%N, - (1))]);
